@@ -3,6 +3,7 @@
 //! re-run with doubled settling times before it is reported.
 
 pub mod c01bp;
+pub mod c04net;
 pub mod c09;
 pub mod c13;
 pub mod c13s;
